@@ -4,6 +4,7 @@ import (
 	"strings"
 	"testing"
 
+	iotachecksum "github.com/iotaledger/iota.go/checksum"
 	"golang.org/x/crypto/blake2b"
 )
 
@@ -158,6 +159,13 @@ func TestVerifDriver(t *testing.T) {
 			emit("migration.Decode", M{"trytes": vInts(m)})
 			if L > len(s) { // the whole valid string in front
 				emit("migration.Decode", M{"trytes": vInts(append(append([]byte{}, s...), m[len(s):]...))})
+			}
+		}
+		// the valid string in the forms other tools of the ecosystem print it in: followed by its own legacy (Kerl) address
+		// checksum of 9 or 3 trytes - longer than a migration address, so never one
+		for _, cl := range []uint64{9, 3} {
+			if long, err := iotachecksum.AddChecksum(string(s), true, cl); err == nil {
+				emit("migration.Decode", M{"trytes": vInts([]byte(long))})
 			}
 		}
 		emit("migration.Decode", M{"trytes": vInts(s)})
